@@ -1192,3 +1192,36 @@ Section HistoriesD.
     locked_round (run_evs n own blocks evs) <= round (run_evs n own blocks evs).
   Proof. apply (d_lk (InvD_run evs)). Qed.
 End HistoriesD.
+
+(* ------------------------------------------------------------------ non-vacuity *)
+
+(* n = 4, own slot 2: proposal, block, import, a polka, a lock, the precommits:
+   the ghost log holds a prevote decision, the lock, the locked precommit and the
+   commit, and the block is decided. *)
+Definition exd_hist : list (event * option nat * bool) :=
+  [ (ERestart, None, false);
+    (EProposal true 0 1 (-1) 1, None, false);
+    (EPart true 1 0, None, false);
+    (EImportCb 0 true, None, false);
+    (EVote true (mkVote 0 0 Prevote (Some 1%N) 1), None, false);
+    (EVote true (mkVote 1 0 Prevote (Some 1%N) 1), None, false);
+    (EVote true (mkVote 0 0 Precommit (Some 1%N) 1), None, false);
+    (EVote true (mkVote 1 0 Precommit (Some 1%N) 1), None, false) ].
+
+Example exd_decided : decided (run_evs 4 2 ex_blocks exd_hist) = Some 1%N.
+Proof. vm_compute. reflexivity. Qed.
+
+Example exd_log_shape :
+  map (fun e => match e with GVote _ _ _ _ => 0 | GLock _ _ _ => 1 | GUnlock _ _ _ _ _ => 2 | GCommit _ _ _ => 3 end%nat)
+      (glog (run_evs 4 2 ex_blocks exd_hist)) = [0; 1; 0; 3]%nat.
+Proof. vm_compute. reflexivity. Qed.
+
+(* an unlock: locked on block 1 at round 0, then a nil polka at round 1 *)
+Definition exd_unlock : list (event * option nat * bool) :=
+  firstn 6 exd_hist ++
+  [ (EVoteList [(true, mkVote 0 1 Prevote None 1); (true, mkVote 1 1 Prevote None 1); (true, mkVote 3 1 Prevote None 1)], None, false) ].
+
+Example exd_unlock_logged :
+  existsb (fun e => match e with GUnlock 0 1%N 1 None _ => true | _ => false end)
+          (glog (run_evs 4 2 ex_blocks exd_unlock)) = true.
+Proof. vm_compute. reflexivity. Qed.
